@@ -378,7 +378,7 @@ def run(ctx):
     bound = 2 if q else 3
     per_cfg = {}
     for name, cfg in configs(q):
-        cap = (5000 if q else 12000)
+        cap = (5000 if q else 4500)
         k = 0
         b = min(bound, cfg.get('quick_bound', bound)) if q else bound
         cfg = {kk: v for kk, v in cfg.items() if kk != 'quick_bound'}
@@ -387,7 +387,7 @@ def run(ctx):
             k += 1
         per_cfg[name] = {'schedules': k, 'capped': k >= cap, 'preemption_bound': b}
     # random schedules at source-line granularity
-    nrand = 150 if q else 3000
+    nrand = 150 if q else 1500
     cfgs = configs(False)
     for i in range(nrand):
         name, cfg = cfgs[rng.randrange(len(cfgs))]
